@@ -148,7 +148,7 @@ def free_mid_tag(rX, dX, rY, dY, got, hcap, other):
     """a workflow completes (its data is freed) while another observation is in the middle of its ingest"""
     wit.begin()
     dX, dY, got = cz(dX, 1, 3), cz(dY, 2, 4), cz(got, 1, 3)
-    env, buf, hot, cold = mk(hcap, other, 10, 0, 10 ** 9)
+    env, buf, hot, cold = mk(hcap, other, 10, 0, rX + rY)            # both rates within the buffer's maximum ingest rate
     X = Observation('X', 0, dX, 1, 'wf', rX)
     X.status = RunStatus.RUNNING
     p = env.process(buf.ingest_data_stream(X))
